@@ -762,7 +762,8 @@ void checkOracles(const Desc& d, const Obs& o, RunResult& r) {
                         Str wantMsg = sfmt("%s:%zu: ", firstFail->file.c_str(), firstFail->line) + firstFail->msg;
                         // attribute value normalisation turns literal tab/newline into spaces; the writer encodes CR/LF as character references, tabs stay literal
                         Str wantNorm = wantMsg; for (size_t q = 0; q < wantNorm.size(); q++) if (wantNorm[q] == '\t') wantNorm[q] = ' ';
-                        if (!fm || *fm != wantNorm) r.fail("C16", "value", sigOf("where", "failure@message"), sfmt("case %zu: message %s, original %s", k, fm ? Json::S(*fm).dump().c_str() : "-", Json::S(wantNorm).dump().c_str()));
+                        Str gotNorm = fm ? *fm : Str(); for (size_t q = 0; q < gotNorm.size(); q++) if (gotNorm[q] == '\t') gotNorm[q] = ' ';      // (a writer that encodes the tab as a character reference gives the tab itself back: at least as faithful)
+                        if (!fm || gotNorm != wantNorm) r.fail("C16", "value", sigOf("where", "failure@message"), sfmt("case %zu: message %s, original %s", k, fm ? Json::S(*fm).dump().c_str() : "-", Json::S(wantNorm).dump().c_str()));
                     }
                 }
                 if (!af || (size_t)atol(af->c_str()) != wantFailed) r.fail("C16", "counts", sigOf("what", "failures"), sfmt("group %s: failures=%s, %zu tests failed", group.c_str(), af ? af->c_str() : "-", wantFailed));
